@@ -7,7 +7,8 @@ from ..val import veq, clone, walk, get_path
 
 ID = 'C10'
 NEED_BINS = False
-SIZES = {'quick': 20000, 'thorough': 1000000}
+SIZES = {'quick': 20000, 'thorough': 1500000}
+REQUIRED_EVENTS = ['inline_agreed', 'required_failures', 'target_unchanged_checked']
 RULE = ('from a random $-free tree (1-3 document streams) choose a target path and a non-overlapping host position; plant one reference in '
         'map / list / string form, $merge or $replace, addressed by dotted string, list path (keys containing dots), cross-document '
         '{$match,$path} or [pattern, path...]; optionally a second reference inside the target (chain) and $output:false around the target. '
